@@ -3,6 +3,8 @@
 package ast
 
 import (
+	"encoding/json"
+
 	v "github.com/bytedance/sonic/internal/zzverif"
 )
 
@@ -99,4 +101,55 @@ func VerifC14LazyHistoryGet() {
 	if a == b || b == c || a == c {
 		v.Cover("duplicate")
 	}
+}
+
+// VerifC14UseNumberViews: a value located by key is rendered the same whether the located
+// node is still lazy or already loaded: with UseNumber every number below it is a json.Number
+// carrying the literal of the document (InterfaceUseNumber / ArrayUseNumber / MapUseNumber),
+// never a float64.
+func VerifC14UseNumberViews() {
+	verifAstStubs()
+	root := NewRaw(`{"a":[1,2],"o":{"k":3},"n":4}`)
+	loaded := v.Bool("loadAllFirst")
+	if loaded {
+		v.Assert(root.LoadAll() == nil, "LoadAll fails")
+		v.Cover("loaded")
+	} else {
+		v.Cover("lazy")
+	}
+	switch v.Concretize(v.Int("what", 0, 2)) {
+	case 0:
+		n := root.Get("a")
+		x, err := n.InterfaceUseNumber()
+		v.Assert(err == nil, "InterfaceUseNumber fails on a located array")
+		arr, ok := x.([]interface{})
+		v.Assert(ok && len(arr) == 2, "InterfaceUseNumber of a located array is not a 2-element slice")
+		if ok && len(arr) == 2 {
+			num, isNum := arr[0].(json.Number)
+			v.Assert(isNum, "InterfaceUseNumber renders a number below a located array as something other than json.Number")
+			if isNum {
+				v.Assert(string(num) == "1", "json.Number does not carry the literal of the document")
+			}
+		}
+	case 1:
+		n := root.Get("o")
+		x, err := n.InterfaceUseNumber()
+		v.Assert(err == nil, "InterfaceUseNumber fails on a located object")
+		m, ok := x.(map[string]interface{})
+		v.Assert(ok, "InterfaceUseNumber of a located object is not a map")
+		if ok {
+			num, isNum := m["k"].(json.Number)
+			v.Assert(isNum, "InterfaceUseNumber renders a number below a located object as something other than json.Number")
+			if isNum {
+				v.Assert(string(num) == "3", "json.Number does not carry the literal of the document")
+			}
+		}
+	case 2:
+		n := root.Get("n")
+		x, err := n.InterfaceUseNumber()
+		v.Assert(err == nil, "InterfaceUseNumber fails on a located number")
+		num, isNum := x.(json.Number)
+		v.Assert(isNum && string(num) == "4", "InterfaceUseNumber of a located number is not its literal")
+	}
+	v.Cover("end")
 }
